@@ -80,6 +80,17 @@ CLAIMED['C05'] = (
     'dateutil cannot be executed symbolically (DESIGN.md 5 C05): the date clause is a concrete list; windows as C01',
     '5 C05')
 
+CLAIMED['C10'] = (
+    'for every NByteEnumParsable factory of the current tree the code is a solver variable over its whole 1/2/3/4-byte '
+    'space: a code decodes iff it is defined, to the member carrying it, and re-encodes to the same bytes; inside every '
+    'enum-coded vector ([code, known] and [known, code]) nothing is dropped or merged, unknown codes are preserved, the '
+    'GREASE classification equals the RFC 8701 tables, the vector re-composes to the same bytes; IntEnum header bytes '
+    '(alert level/description pairs, content type, SSH reason, SSL2 message type, MySQL charset) through their messages; '
+    'ALPN/NPN names extended by symbolic bytes; SSH name-lists with unknown names. Alias and string-enum member checks '
+    'are enumerated natively (finite tables)',
+    'the cryptodatahub tables are the reference for which codes are defined; quick tier: the [known, code] order of '
+    '16-bit vectors covers a seed-rotated quarter of the space', '5 C10')
+
 NOT_APPLICABLE = {
     'C19': 'asymptotic claim (work linear in input size for n, 2n, 4n, ...): a bounded symbolic execution fixes the '
            'input size, so a pass says nothing about growth; the total-work bound needs an amortised argument over '
